@@ -97,6 +97,7 @@ package asserts
 //@   guard call (*Decoder).peek: arg1 <= maxSize || arg1 == old(d.initialBufSize)
 //@   loop 0: invariant 1 <= len(delim) && len(delim) <= old(d.initialBufSize) ==> size >= old(d.initialBufSize) && last >= 0
 //@   loop 0: invariant size <= maxSize || size == old(d.initialBufSize)
+//@   loop 0: step [no-gap-in-search] last <= old(size) - len(delim) + 1
 
 // Limits: headers are searched up to maxHeadersSize, trailer and signature up to maxSigSize; the
 // body is read only with a positive length that is at most the default maximum and, when the
